@@ -103,6 +103,16 @@ def cases(tier):
         add("einsum(ijb,ijbg->bg,imag_part=False)", lambda x, y: cplx.make_complex(cplx.einsum("ijb,ijbg->bg", x, y, imag_part=False)),
             [(n, n, m), (n, n, m, 2)], lambda x, y: _re(np.einsum("ijb,ijbg->bg", x, y)))
         add("matmul(shape mismatch)", lambda x, y: cplx.matmul(x, y), [(n, m), (m + 1, n)], exc=(RuntimeError, ValueError))
+    # the index letters of an equation are the caller's choice: every letter torch accepts, in every role, with blanks,
+    # and the implicit-output form (size-2 axes, where a clash with an internally added axis would not even raise)
+    import string
+    letters = string.ascii_lowercase + string.ascii_uppercase
+    for o in range(0, 52, 3):
+        a_, b_, c_ = (letters[(o + t) % 52] for t in range(3))
+        for eq in ("%s%s,%s%s->%s%s" % (a_, b_, b_, c_, a_, c_), "%s%s,%s%s->%s%s" % (c_, a_, b_, a_, b_, c_)):
+            add("einsum(index letters: %s)" % eq, lambda x, y, eq=eq: cplx.einsum(eq, x, y), [(2, 2), (2, 2)], lambda x, y, eq=eq: np.einsum(eq, x, y))
+    for eq in ("ij, jk -> ik", "ij,jk", "ba,ab", "xy,yz->xz", "ay,by->ab", "ax,xb->ab"):
+        add("einsum(equation form: %r)" % eq, lambda x, y, eq=eq: cplx.einsum(eq, x, y), [(2, 2), (2, 2)], lambda x, y, eq=eq: np.einsum(eq, x, y))
     add("einsum(no parts)", lambda x, y: _none_to_flag(cplx.einsum("b,b->b", x, y, real_part=False, imag_part=False)), [(2,), (2,)], ("is-none", None))
     for n in dims:
         add("inner_prod(vec,vec)", lambda x, y: cplx.inner_prod(x, y), [(n,), (n,)], lambda x, y: np.sum(np.conj(x) * y))
